@@ -15,7 +15,7 @@ import (
 // C10 — script maps behave like Go maps under any history of operations.
 //
 // (a) BFS to fixpoint over histories of Set/Delete on the real map objects
-//     (3 keys x 2 values, 4 key kinds, every ordered initial content), states
+//     (3 keys x 2 values, 4 key kinds + two any-valued kinds + four int keys starting at 0 (three deletions out of four trigger the key-list compaction while key 0 is live), every ordered initial content), states
 //     merged on (reflective dump of the implementation object, reference map);
 //     Get / comma-ok / Len / RangeAll compared with a Go map in every state.
 // (b) unmerged DFS over all histories to depth 5/6 (guards the merge).
@@ -68,6 +68,8 @@ var c10kinds = []c10kind{
 	{"bool", goatlang.TypeBool, []goatlang.Value{goatlang.Bool(true), goatlang.Bool(false)}, []string{"true", "false"}, "bool", false},
 	{"string->any", goatlang.TypeString, []goatlang.Value{goatlang.String("a"), goatlang.String("b"), goatlang.String("c")}, []string{`"a"`, `"b"`, `"c"`}, "string", true},
 	{"int->any", goatlang.TypeInt32, []goatlang.Value{goatlang.Int(1), goatlang.Int(2), goatlang.Int(3)}, []string{"1", "2", "3"}, "int", true},
+	// keys from zero: the zero value of the key type is a key like any other (a key list must not confuse "deleted" with 0)
+	{"int from 0", goatlang.TypeInt32, []goatlang.Value{goatlang.Int(0), goatlang.Int(1), goatlang.Int(2), goatlang.Int(3)}, []string{"0", "1", "2", "3"}, "int", false},
 }
 
 // an operation of the history alphabet
@@ -420,6 +422,10 @@ func c10run(r *report.Run) {
 	r.Assume("Go map semantics are the reference (a Go map in the harness + the specification's range rules)", "key order produced by compaction is pinned by the verifCanonKeys seam (sorted); other orders are renamings of explored cases because the map code never inspects key values", "NaN keys excluded as in the property")
 	states, transitions, dfsN, iterN, scripts := 0, 0, 0, 0, 0
 	for ki, kd := range c10kinds {
+		if r.Violations() > 200 {
+			r.NotExhaustive("stopped early: more than 200 violations")
+			break
+		}
 		alphabet := c10alphabet(kd)
 		// (a) BFS to fixpoint
 		type st struct{ h c10hist }
@@ -437,6 +443,10 @@ func c10run(r *report.Run) {
 		}
 		obsSet := map[string]bool{}
 		for len(frontier) > 0 {
+			if r.Violations() > 200 {
+				r.NotExhaustive("stopped early: more than 200 violations")
+				break
+			}
 			if len(all) > 200000 {
 				r.NotExhaustive("state cap of 200000 reached in BFS (state space did not close)")
 				break
@@ -479,6 +489,13 @@ func c10run(r *report.Run) {
 			_, obs := c10observe(kd, m, ref)
 			r.Sample(map[string]any{"history": h.String(), "implementation_state": goatlang.VerifDump(m), "observations": obs})
 		}
+		// the four-key kind is there for the key-list compaction (three of four keys deleted): its merged search and a
+		// shallow unmerged one are explored, interleavings with one mutation only, no scripts
+		lite := len(kd.keys) > 3
+		kDfs, kMut := dfsDepth, maxMut
+		if lite {
+			kDfs, kMut = 3, 1
+		}
 		// (b) unmerged DFS
 		dfsObs := map[string]bool{}
 		var dfs func(h c10hist)
@@ -490,14 +507,14 @@ func c10run(r *report.Run) {
 				r.Fail(&report.Case{Kind: "history", Key: h.String(), Input: h, Want: "answers of a Go map", Got: p + "  [" + obs + "]"})
 			}
 			dfsObs[obs] = true
-			if len(h.Ops) == dfsDepth {
+			if len(h.Ops) == kDfs {
 				return
 			}
 			for _, op := range alphabet {
 				dfs(c10hist{Kind: ki, Init: h.Init, Ops: append(append([]c10op{}, h.Ops...), op)})
 			}
 		}
-		for _, in := range [][]int{{}, {0, 1}, []int{1, 0, 2}[:len(kd.keys)]} {
+		for _, in := range [][]int{{}, {0, 1}, []int{1, 0, 2, 3}[:len(kd.keys)]} {
 			dfs(c10hist{Kind: ki, Init: in})
 		}
 		// every observation vector of the unmerged search must have been seen by the merged one
@@ -511,7 +528,7 @@ func c10run(r *report.Run) {
 		var jobs []c10hist
 		jobs = append(jobs, all...)
 		par.DoChunk(len(jobs), 8, func(j int) {
-			if r.Expired() {
+			if r.Expired() || r.Violations() > 200 {
 				return
 			}
 			h := jobs[j]
@@ -537,7 +554,7 @@ func c10run(r *report.Run) {
 					return
 				}
 				rec(append(append([]int{}, steps...), -1), used)
-				if used < maxMut {
+				if used < kMut {
 					for mi := range muts {
 						rec(append(append([]int{}, steps...), mi), used+1)
 					}
@@ -553,7 +570,7 @@ func c10run(r *report.Run) {
 			}
 		})
 		// (d) script renderings (int-valued kinds; the any-valued kinds print nil differently from Go and are covered by (a)-(c))
-		if kd.anyVal {
+		if kd.anyVal || lite {
 			continue
 		}
 		var shist []c10hist
@@ -570,7 +587,7 @@ func c10run(r *report.Run) {
 				srec(c10hist{Kind: ki, Init: h.Init, Ops: append(append([]c10op{}, h.Ops...), op)})
 			}
 		}
-		for _, in := range [][]int{{}, {0, 1}, []int{1, 0, 2}[:len(kd.keys)]} {
+		for _, in := range [][]int{{}, {0, 1}, []int{1, 0, 2, 3}[:len(kd.keys)]} {
 			srec(c10hist{Kind: ki, Init: in})
 		}
 		par.DoChunk(len(shist), 16, func(j int) {
